@@ -372,7 +372,14 @@ func genPathFamily(r vlib.Rnd) []byte {
 		if vlib.Chance(r, 1, 3) {
 			path += "/s" + n
 		}
-		path += "/{" + n + "}"
+		switch r.Intn(8) {
+		case 0:
+			path += "/{" + n + "}.json" // braces inside a segment: not a JSight path parameter
+		case 1:
+			path += "/v{" + n + "}"
+		default:
+			path += "/{" + n + "}"
+		}
 	}
 	pathDir := func(ind string) {
 		var props []string
